@@ -314,8 +314,38 @@ def rule_replace_and_slots(check, rule, classes=UPGRADED):
                             seen.add(k)
                             check.holds(rule, site_of(m, m.node), '%s.__init__ assigns %r' % (cname, s_), key=k)
             check.floor(rule, 'paths of %s.%s' % (cname, mname), n, 1)
-        # replace(): an explicitly passed value must win over the receiver's
+        # replace(): what the base class's replace() accepts as an override, the override must accept unchanged: the base keeps
+        # the receiver's value only for its private `_void` sentinel, so None and empty values are legitimate overrides
+        # (`replace(return_annotation=None)`, `replace(parameters=[])`); deciding "keep" by `is None` or by truthiness drops them
         m = ci.methods.get('replace')
+        if m is not None:
+            base_kw = ('parameters', 'return_annotation') if 'Signature' in cname else ('name', 'kind', 'default', 'annotation')
+            itb = Interp(repo, Policy(try_forks=True))
+            seenb = set()
+            for p_ in itb.run(m):
+                for atom, pol in p_.lits:
+                    if atom[0] not in ('truthy', 'isnone'):
+                        continue
+                    t_ = atom[1]
+                    nm = None
+                    if t_[0] == 'P' and t_[1] in base_kw:
+                        nm = t_[1]
+                    elif t_[0] == 'M' and t_[2] in ('pop', 'get') and t_[3] and t_[3][0][0] == 'K' and t_[3][0][1] in base_kw:
+                        nm = t_[3][0][1]
+                    if nm is None:
+                        continue
+                    kb = '%s|replace|base-override:%s' % (ci.key, nm)
+                    if kb in seenb:
+                        continue
+                    seenb.add(kb)
+                    check.violation(rule, site_of(m, m.node), '%s.replace decides whether %r was passed by %s: %s is a legitimate override for '
+                                    'the base class (which keeps the old value only for its private sentinel), and it is silently ignored here'
+                                    % (cname, nm, 'truthiness' if atom[0] == 'truthy' else 'an `is None` test',
+                                       'an empty value' if atom[0] == 'truthy' else 'None'), key=kb,
+                                    witness='sig.replace(parameters=[]) has no parameters; sig.replace(return_annotation=None) is "-> None"')
+            if not seenb:
+                check.holds(rule, site_of(m, m.node), '%s.replace hands base-class overrides on without testing them for None/emptiness' % cname,
+                            key='%s|replace|base-override' % ci.key)
         if m is not None:
             it = Interp(repo, Policy(try_forks=True))
             paths = it.run(m)
